@@ -119,7 +119,7 @@ def runs(tier, pid):
         two = [SMALL_BASES[(k + i * 5) % len(SMALL_BASES)] for i in range(2)]
         return [("rich+2small-1edit", c(RICH_BASES + OPT_BASES + two, ["a"], 1, grow=two), None, None, 1.0, 1.0)]
     return [
-        ("rich-mut+small", c(RICH_BASES + OPT_BASES + [sb], ["a"], 1, grow=[sb], mutbases=RICH_BASES + OPT_BASES,
+        ("rich-mut+small", c(RICH_BASES + OPT_BASES + [sb], ["a"], 1, grow=[sb], mutbases=RICH_BASES + ["O2"],
                              wide=["message", "enum", "service"]),
          None, None, 1.0, 0.6 if slow else 1.0),
     ]
